@@ -103,7 +103,7 @@ class Opaque:
 UNIT = Agg([], name="()")
 
 INT_W = {"u8": 8, "u16": 16, "u32": 32, "u64": 64, "u128": 128, "usize": 64,
-         "i8": 8, "i16": 16, "i32": 32, "i64": 64, "i128": 128, "isize": 64}
+         "i8": 8, "i16": 16, "i32": 32, "i64": 64, "i128": 128, "isize": 64, "char": 32}
 
 
 def is_int(ty):
@@ -356,6 +356,11 @@ class Ex:
         m = re.match(r"^(-?[0-9.]+(?:[eE][-+]?\d+)?)(_)?f64$", t)
         if m:
             return Sc(float(m.group(1)), "f64")
+        m = re.match(r"^'(\\?.)'$", t)
+        if m:
+            ch = m.group(1)
+            ch = {"\\n": "\n", "\\t": "\t", "\\0": "\0", "\\'": "'", "\\\\": "\\"}.get(ch, ch)
+            return Sc(ord(ch[-1]), "char")
         if t == "true":
             return Sc(True, "bool")
         if t == "false":
